@@ -1,11 +1,12 @@
-import CalicoVerif.Proofs.C15s
+import CalicoVerif.Proofs.C15v
 /-!
 C15 — iptables sync converges and leaves other software's rules alone (legacy iptables backend).
 Property theorems over the model `CalicoVerif.Model.C15` of felix/iptables/table.go and of
 iptables-save and iptables-restore (atomic transactions).  Rule hashes are uninterpreted (supplied by the real
 renderer on every correspondence run).
 
-Convergence for Felix's own chains is proved end to end (`apply_converges_owned_chains`): after ANY history of
+Convergence for Felix's own chains is proved end to end (`apply_converges_owned_chains_partial`; partial because
+"desired" is the code's reference-count notion): after ANY history of
 API calls, restarts, foreign edits of the table and Applies with any failures, from any start table, an `Apply`
 that returns — over its whole retry loop, with any iptables-save or iptables-restore failures — leaves every Felix-owned chain
 name holding exactly the desired rules in order, or absent.  The invariant behind it (`TInv`: the cache of
@@ -29,22 +30,25 @@ chains outside Felix's name space), restarts, foreign edits of the table, and `A
 iptables-restore failures and out-of-band edits, whether it returns or panics. -/
 theorem invariant_always (P : List String) (hk : ∀ c ∈ kernelChains, oursP P c = false) (mode : Bool) (K0 : Kernel)
     (ops : List Op) (hwf : ∀ o ∈ ops, o.wf P) : TInv (({ t := T.new P mode, K := K0 } : W).run ops).t :=
-  (run_pinv hk ops { t := T.new P mode, K := K0 } hwf ⟨TInv.new P mode hk, rfl⟩).1
+  (run_pinv hk ops { t := T.new P mode, K := K0 } hwf ⟨TInv.new P mode hk, rfl, DInv.new _ P mode⟩).1
 
-/-- **apply_converges, owned chains**: from ANY start table `K0`, after ANY history `ops` (API calls, restarts,
+/-- **apply_converges, owned chains** (partial: "desired" is the code's notion — present in Felix's state with a
+positive reference count; that the reference counts equal reachability from hook rules and force-programmed chains
+is not proved in Lean, only checked exhaustively on small universes (`allOK`) and on the real code by an oracle; the
+Apply must start with the cache out of date and `HashSound` is assumed).  From ANY start table `K0`, after ANY history `ops` (API calls, restarts,
 foreign edits of the table, earlier Applies with any failures), if `Apply` — begun with the cache marked out of
 date, run with any iptables-save failures `sf` and iptables-restore failures `rf` over its whole retry loop,
 with nobody editing the table between Felix's read and its write — returns, then every Felix-owned chain name
 holds exactly the desired rules in the desired order if the chain is desired (present in Felix's state and
 referenced), and does not exist otherwise: stale Felix chains, including ones with historic prefixes, are gone. -/
-theorem apply_converges_owned_chains (P : List String) (hk : ∀ c ∈ kernelChains, oursP P c = false) (mode : Bool)
+theorem apply_converges_owned_chains_partial (P : List String) (hk : ∀ c ∈ kernelChains, oursP P c = false) (mode : Bool)
     (K0 : Kernel) (ops : List Op) (hwf : ∀ o ∈ ops, o.wf P) (sf rf : List Bool) :
     let w : W := { ({ t := T.new P mode, K := K0 } : W).run ops with saveFails := sf, restoreFails := rf, pre := none, trace := [] }
     w.t.inSync = false → HashSound w.t w.K → w.apply.2 = true →
     ∀ c, oursP P c = true → c ≠ "" →
       w.apply.1.K.get c = (w.t.desiredChain c).map (fun ch => ch.rules.map DRule.k) := by
   intro w hns hs hok c ho hne
-  obtain ⟨hinv, hp⟩ := run_pinv hk ops { t := T.new P mode, K := K0 } hwf ⟨TInv.new P mode hk, rfl⟩
+  obtain ⟨hinv, hp, _⟩ := run_pinv hk ops { t := T.new P mode, K := K0 } hwf ⟨TInv.new P mode hk, rfl, DInv.new _ P mode⟩
   have hinv' : TInv w.t := hinv
   have hp' : w.t.prefixes = P := hp
   exact (apply_converges_loop w hinv' hs hns rfl hok).conv c (by rw [ours_eq, hp']; exact ho) hne
@@ -58,6 +62,36 @@ theorem apply_iteration_owned_chains (t : T) (K K' : Kernel) {lines newH newFull
     (c : String) (hours : t.ours c = true) (hne : c ≠ "") :
     K'.get c = (t.desiredChain c).map (fun ch => ch.rules.map DRule.k) :=
   apply_converges_owned t K K' hinv.cache hinv.nodup hinv.iaForeign hsound hplan hres c hours hne
+
+/-- **Rules and chains that are not Felix's are left alone** by a whole `Apply`: from ANY start table, after ANY
+history of well-formed calls (Felix-prefixed chain names, hook rules only in chains outside the prefixes, jumps only
+to Felix chains: `Op.wf`), an `Apply` begun with the cache out of date and with nobody editing the table between
+Felix's read and its write — for any save/restore failure plan, whether it returns or panics — leaves in every chain
+outside Felix's name space the rules of other software unchanged and in the same order, and neither creates nor
+deletes such a chain.  (`dirtyChains` only ever holds Felix names: part of the invariant.) -/
+theorem non_felix_rules_unchanged (P : List String) (hk : ∀ c ∈ kernelChains, oursP P c = false) (mode : Bool)
+    (K0 : Kernel) (ops : List Op) (hwf : ∀ o ∈ ops, o.wf P) (sf rf : List Bool) :
+    let w : W := { ({ t := T.new P mode, K := K0 } : W).run ops with saveFails := sf, restoreFails := rf, pre := none, trace := [] }
+    w.t.inSync = false → ∀ x, oursP P x = false → x ≠ "" →
+      (w.apply.1.K.get x).map foreignSub = (w.K.get x).map foreignSub := by
+  intro w hns x hx hne
+  have hinv := run_pinv hk ops { t := T.new P mode, K := K0 } hwf ⟨TInv.new P mode hk, rfl, DInv.new _ P mode⟩
+  have hinv' : PInv P w.t := hinv
+  exact apply_foreign w hinv' hns rfl x hx hne
+
+/-- **The model's fuel bound is never reached** on ranked histories: if every `UpdateChain` only jumps to chains of
+strictly lower rank (so the reference graph is acyclic; the real `decrefChain` does not terminate on a cycle) then
+after any history the graph is still ranked, and every incref/decref cascade started at a chain of rank below the
+model's fuel (64) computes the same state with any larger amount of fuel — the cut-off that makes the model total
+plays no role.  (The other theorems do not assume rankedness; outside it they speak about the model only.) -/
+theorem fuel_never_exhausted (rk : String → Nat) (P : List String) (mode : Bool) (K0 : Kernel) (ops : List Op)
+    (hr : ∀ o ∈ ops, o.ranked rk) :
+    let t := (({ t := T.new P mode, K := K0 } : W).run ops).t
+    Ranked rk t ∧ ∀ n, rk n < fuel → ∀ k, T.incref (fuel + k) t n = T.incref fuel t n ∧ T.decref (fuel + k) t n = T.decref fuel t n := by
+  intro t
+  have h : Ranked rk t := run_ranked rk ops { t := T.new P mode, K := K0 } hr
+    (by intro c ch hc; simp [T.new, Map.get] at hc)
+  exact ⟨h, fun n hn k => ⟨incref_fuel_enough rk t n h hn k, decref_fuel_enough rk t n h hn k⟩⟩
 
 /-- **apply_converges, hook rules** (partial: ONE iteration that re-reads the table and whose transaction
 succeeds, and only when the chain's hooks are out of sync (`hnot`); not lifted over the retry loop or over
@@ -175,7 +209,7 @@ example : HashNonEmpty [KRule.old "-j felix-FORWARD", KRule.foreign "-j DOCKER",
   simp only [List.mem_cons, List.not_mem_nil, or_false] at hr
   rcases hr with rfl | rfl | rfl <;> simp [KRule.hash, KRule.isForeign]
 
-/-! Non-vacuity of `apply_converges_owned_chains`: the real prefixes, a start table with a stale copy of a Felix
+/-! Non-vacuity of `apply_converges_owned_chains_partial`: the real prefixes, a start table with a stale copy of a Felix
 chain, a stale Felix chain nobody wants and a foreign rule; a history with an API call, an Apply whose first save and first transaction fail,
 a foreign edit of the Felix chain, a stale Felix chain appearing, and a refresh; then an Apply with failures. -/
 def exP : List String := ["cali-", "califw-", "calitw-", "califh-", "calith-", "calipi-", "calipo-", "felix-"]
@@ -191,7 +225,21 @@ example : ∀ c ∈ kernelChains, oursP exP c = false := by decide
 example : ∀ o ∈ exOps, o.wf exP := by
   intro o ho
   simp only [exOps, List.mem_cons, List.not_mem_nil, or_false] at ho
-  rcases ho with rfl | rfl | rfl | rfl | rfl <;> trivial
+  rcases ho with rfl | rfl | rfl | rfl | rfl <;> first | trivial | (constructor <;> decide)
+/- the same history is ranked (no jumps at all), and a history with hook rules and a two-level jump is well-formed
+and ranked for the rank "position in a-b-c" -/
+example : ∀ o ∈ exOps, o.ranked (fun _ => 0) := by
+  intro o ho
+  simp only [exOps, List.mem_cons, List.not_mem_nil, or_false] at ho
+  rcases ho with rfl | rfl | rfl | rfl | rfl <;> first | trivial | (intro x hx; simp [refsOf] at hx)
+def exRk (c : String) : Nat := if c == "cali-a" then 2 else if c == "cali-b" then 1 else 0
+def exOps3 : List Op :=
+  [Op.chain "cali-b" ⟨[⟨"hb", "--jump cali-c", some "cali-c"⟩], false⟩,
+   Op.chain "cali-a" ⟨[⟨"ha", "--jump cali-b", some "cali-b"⟩], true⟩,
+   Op.ins "FORWARD" [⟨"hf", "--jump cali-a", some "cali-a"⟩], Op.rmchain "cali-a"]
+example : (∀ o ∈ exOps3, o.wf exP) ∧ (∀ o ∈ exOps3, o.ranked exRk) := by
+  constructor <;> (intro o ho; simp only [exOps3, List.mem_cons, List.not_mem_nil, or_false] at ho;
+                   rcases ho with rfl | rfl | rfl | rfl) <;> simp [Op.wf, Op.ranked, refsOf] <;> decide
 #guard !exW.dead
 #guard !exW.t.inSync
 #guard exW.apply.2
